@@ -4,4 +4,5 @@ TARGETS = {
     'atomic-fib': dict(cfg='fib', src=['harness/atomic.cpp'], cflags=f'-O0 -g1 {ASAN} {UBSAN}', libs='-lrapidcheck'),
     'atomic-thr': dict(cfg='thr', src=['harness/atomic.cpp'], cflags=f'-O0 -g1 {ASAN} {UBSAN}', libs='-lrapidcheck'),
     'stdlocks': dict(cfg='fib', src=['harness/stdlocks.cpp'], cflags=f'-O1 -g1 {ASAN}', libs='-lrapidcheck'),
+    'repro': dict(cfg='fib', src=['harness/repro.cpp'], cflags=f'-O1 -g1 {ASAN}', libs='-lrapidcheck'),
 }
